@@ -30,6 +30,7 @@ func checkC11(c *Ctx) {
 	r.Rule("R11.3", "scan skipped only for UnlimitedTTL with expirationsSet==0; Trait.TTL increments expirationsSet for every non-zero TTL under UnlimitedTTL", 2)
 	r.Rule("R11.4", "Trait is never copied by value after construction", 1)
 	r.Rule("R11.5", "who may delete from storage", 1)
+	r.Rule("R11.7", "cleanup cycles exist: the constructor starts the janitor whenever a delete-expired or evict callback is installed, and the janitor calls invokeCleanup in a loop", 1)
 	r.Rule("R11.6", "eviction, the only other remover, is gated by an established soft-limit breach (same obligations as C12 R12.1)", 4)
 	r.NotDecided = []string{"when the janitor runs", "how much and which entries an eviction removes (C12)"}
 	c.c11Boundary()
@@ -39,6 +40,11 @@ func checkC11(c *Ctx) {
 		c.c11DeleteExpired(b)
 	}
 	c.c11ScanSkip()
+	c.c11Wiring()
+	for _, b := range backends {
+		b := b
+		c.borrowKinds("C12", func() { c.c12Wiring(b) }, "R11.7", "New"+b.Wrapper, []string{"R12.3"}, "callback-wiring:DeleteExpired")
+	}
 	c.c11NoCopy()
 	c.c11WhoDeletes()
 	c.borrow("C07", func() {
@@ -221,6 +227,99 @@ func (c *Ctx) c11DeleteExpired(b BK) {
 		r.Unknown("R11.2", op, fmt.Sprintf("vacuous: %d deleting iterations, %d keeping iterations", nDel, nKeep))
 	} else if !hasViolation(r.Obls, "R11.2", op) {
 		r.OK("R11.2", op, fmt.Sprintf("%d deleting / %d keeping iterations agree with E≠0 ∧ E<boundary", nDel, nKeep))
+	}
+}
+
+// c11Wiring: R11.7 — cleanup cycles exist: the constructor starts, whenever a delete-expired or evict callback is installed, a
+// goroutine that calls invokeCleanup from inside a loop.
+func (c *Ctx) c11Wiring() {
+	r := c.R
+	info := c.Pkg.TypesInfo
+	_, cleanup := c.funcDecl("Trait.invokeCleanup")
+	if cleanup == nil {
+		r.Unknown("R11.7", "Trait.invokeCleanup", "anchor does not resolve")
+		return
+	}
+	// callers of invokeCleanup that call it inside a for loop
+	loopCallers := map[*types.Func]bool{}
+	c.eachFuncDecl(func(fd *ast.FuncDecl, fn *types.Func) {
+		var walk func(n ast.Node, inLoop bool)
+		walk = func(n ast.Node, inLoop bool) {
+			ast.Inspect(n, func(x ast.Node) bool {
+				switch y := x.(type) {
+				case *ast.ForStmt:
+					if !inLoop {
+						walk(y.Body, true)
+						return false
+					}
+				case *ast.RangeStmt:
+					if !inLoop {
+						walk(y.Body, true)
+						return false
+					}
+				case *ast.CallExpr:
+					if callee, _ := typeutil.Callee(info, y).(*types.Func); callee != nil && callee.Origin() == cleanup.Origin() && inLoop {
+						loopCallers[fn.Origin()] = true
+					}
+				}
+				return true
+			})
+		}
+		walk(fd.Body, false)
+	})
+	if len(loopCallers) == 0 {
+		r.Bad("R11.7", "Trait.invokeCleanup", "no-cleanup-loop", "-", "no function calls invokeCleanup from inside a loop: cleanup cycles never repeat", nil)
+		return
+	}
+	ctor := "Trait.init"
+	if _, fn := c.funcDecl(ctor); fn == nil {
+		ctor = "NewTrait"
+	}
+	_, paths, _, err := c.runFunc(ctor, pw.Policy{Inline: inlineUnexported, MaxDepth: 2})
+	if err != nil {
+		r.Unknown("R11.7", ctor, err.Error())
+		return
+	}
+	nStart, nNone, bad := 0, 0, false
+	for _, p := range paths {
+		installed := triFalse
+		seen := 0
+		for _, ev := range p.Events {
+			if ev.Kind == pw.EvFieldRead && ev.Field != nil && (ev.Field.Name() == "DeleteExpired" || ev.Field.Name() == "Evict") {
+				seen++
+				switch nilTri(p, ev.Value) {
+				case triFalse:
+					installed = triTrue
+				case triUnknown:
+					if installed != triTrue {
+						installed = triUnknown
+					}
+				}
+			}
+		}
+		started := false
+		for _, ev := range p.Events {
+			if ev.Kind == pw.EvGo && ev.Callee != nil && loopCallers[ev.Callee.Origin()] {
+				started = true
+			}
+		}
+		switch {
+		case started:
+			nStart++
+		case seen > 0 && installed != triFalse:
+			if bad {
+				continue
+			}
+			bad = true
+			r.Bad("R11.7", ctor, "janitor-not-started", c.Pos(p.RetPos), "a delete-expired or evict callback may be installed but the constructor does not start the cleanup goroutine: no cleanup cycle ever runs", shortTrace(p))
+		default:
+			nNone++
+		}
+	}
+	if nStart == 0 {
+		r.Bad("R11.7", ctor, "janitor-never-started", "-", "no path of the constructor starts the cleanup goroutine", nil)
+	} else if !bad {
+		r.OK("R11.7", ctor, fmt.Sprintf("%d paths start the cleanup loop, %d have no callback installed", nStart, nNone))
 	}
 }
 
